@@ -175,10 +175,10 @@ CHECKS = {
               "the whole tree unchanged and maps each constraint to a logically equivalent one, stays in the fragment, is idempotent, "
               "and is written as the byte-identical text (so any number of cycles changes nothing). End to end for ANY parser "
               "function that returns the writer's syntax tree on the writer's text (explicit premise, validated on every case by "
-              "suite P-uvl against the real ANTLR parser). Bytes tied to the code by suite W-uvl, reader by suite R-uvl. Open findings (names starting with an apostrophe; string values with a full stop or line break, uvlparser) are reproduced by fixed models (suite R-uvl-known-models) and printed as KNOWN-FINDING."),
+              "suite P-uvl against the real ANTLR parser). Bytes tied to the code by suite W-uvl, reader by suite R-uvl. Open findings (names starting with an apostrophe; string values with a full stop or line break, uvlparser) are reproduced by fixed models (suite R-uvl-known-models) and printed as KNOWN-FINDING. Source tie (DESIGN §10): the UVLWriter class is re-translated from uvl_writer.py on every run as a state record with its methods (Gen/Src_uvl.v); C01_source_writer proves that the translated transform() returns the text the hand model writes (for every large enough fuel), C01_source_roundtrip is the round trip of the translated writer under the same parser premise."),
         note=("Coq kernel; extraction/driver; harness incl. conversion of the ANTLR parse tree; the external uvlparser/antlr4 runtime "
               "enters only through the stated premise; float tokens carry Python's repr; no axioms"),
-        technique="Coq proof (writer/reader models over a concrete-syntax-tree type, parser as premise) + differential correspondence",
+        technique="Coq proof (writer/reader models over a concrete-syntax-tree type, parser as premise) + differential correspondence + source re-translated into Gallina on every run (tools/py2coq.py) and proved equal to the model",
         design="4 C01"),
     "C02": dict(
         text=("Theorems for all six reader models (JSON, Glencoe, FeatureIDE, FaMa XML, UVL, AFM) and EVERY document / parse tree "
